@@ -9,6 +9,11 @@
 }
 
 
+static bool is_binary_kind(::sqf::parser::sqf::bison::astkind kind)
+{
+    return kind >= ::sqf::parser::sqf::bison::astkind::EXP0 && kind <= ::sqf::parser::sqf::bison::astkind::EXP9;
+}
+
 void ::sqf::parser::sqf::formatter::formatter::prettify(const ::sqf::parser::sqf::bison::astnode& node, size_t depth, std::ostringstream& buff) {
     switch (node.kind) {
     case bison::astkind::EXP0:
@@ -22,13 +27,21 @@ void ::sqf::parser::sqf::formatter::formatter::prettify(const ::sqf::parser::sqf
     case bison::astkind::EXP8:
     case bison::astkind::EXP9:
     {
+        // parentheses of the source are not AST nodes: re-emit them where the tree differs from default grouping
+        // (left operand of a looser level, right operand of the same or a looser level)
+        bool paren_left = is_binary_kind(node.children[0].kind) && node.children[0].kind < node.kind;
+        bool paren_right = is_binary_kind(node.children[1].kind) && node.children[1].kind <= node.kind;
+        if (paren_left) { buff << "("; }
         this->prettify(node.children[0], depth, buff);
+        if (paren_left) { buff << ")"; }
         buff << " ";
         auto s = std::string(node.token.contents);
         std::transform(s.begin(), s.end(), s.begin(), [](char& c) { return (char)std::tolower((int)c); });
         buff << s;
         buff << " ";
+        if (paren_right) { buff << "("; }
         this->prettify(node.children[1], depth, buff);
+        if (paren_right) { buff << ")"; }
     }
     break;
     case bison::astkind::EXPU:
@@ -38,16 +51,14 @@ void ::sqf::parser::sqf::formatter::formatter::prettify(const ::sqf::parser::sqf
         buff << s;
         buff << " ";
 
-        if (s == "if" && node.children[0].token.contents != "!")
-            buff << "(";
-        else if (s == "!")
+        // a binary operand of a unary operator always needs its parentheses back
+        bool paren = (s == "if" && node.children[0].token.contents != "!") || s == "!" || is_binary_kind(node.children[0].kind);
+        if (paren)
             buff << "(";
 
         this->prettify(node.children[0], depth, buff);
 
-        if (s == "if" && node.children[0].token.contents != "!")
-            buff << ")";
-        else if (s == "!")
+        if (paren)
             buff << ")";
     }
     break;
